@@ -58,7 +58,8 @@ MergeShapes == <<
     TU(Tnoid, None, <<Stu(Some(1), Some(2), None, Some(2))>>),              \* 17 own entity of that trip
     AL(3, <<[NoSel EXCEPT !.trip = Some(T1)], [NoSel EXCEPT !.trip = Some(T2)], [NoSel EXCEPT !.trip = Some(Tnoid)]>>),  \* 18 one alert naming three trips
     TU([NoTD EXCEPT !.id = Some(2), !.st = Some([h |-> 24, m |-> 10, s |-> 0, ok |-> TRUE])], None, <<Stu(Some(1), Some(1), Some(1), None)>>),   \* 19 t1 at 24:10:00
-    TU([NoTD EXCEPT !.id = Some(2), !.st = Some([h |-> 24, m |-> 40, s |-> 0, ok |-> TRUE])], Some(VDid(3)), <<>>)                             \* 20 t1 at 24:40:00
+    TU([NoTD EXCEPT !.id = Some(2), !.st = Some([h |-> 24, m |-> 40, s |-> 0, ok |-> TRUE])], Some(VDid(3)), <<>>),                            \* 20 t1 at 24:40:00
+    VP(Some([NoVD EXCEPT !.id = Some(1), !.label = Some(1)]), None, Pos1, Some(2))                                                             \* 21 own entity of the vehicle (v1, label L1): not the vehicle v1
 >>
 
 SeqOfSet(S) == SortSet(S, LAMBDA a, b : a < b)
@@ -99,6 +100,9 @@ SelPool == <<
     [NoSel EXCEPT !.route = Some(2), !.trip = Some(TDrd(1, 0))],
     [NoSel EXCEPT !.trip = Some(TDrd(2, 0)), !.stop = Some(2)],   \* partly useful: stop + route-only descriptor
     [NoSel EXCEPT !.trip = Some(NoTD)],
+    [NoSel EXCEPT !.trip = Some([TDfull(2, 1) EXCEPT !.st = Some([h |-> 25, m |-> 30, s |-> 0, ok |-> TRUE])])],   \* identifiable, starts after 24:00:00
+    [NoSel EXCEPT !.trip = Some([TDfull(1, 0) EXCEPT !.sd = Some([day |-> 7, ok |-> TRUE])])],                      \* identifiable, on a date whose local midnight some zones skip
+    [NoSel EXCEPT !.rtype = Some(0 - 1)],                     \* negative route types are not route types
     [NoSel EXCEPT !.route = Some(1), !.trip = Some(TDid(2)), !.agency = Some(1), !.stop = Some(1), !.rtype = Some(3), !.dir = Some(1)]
 >>
 SelSeqs(n) == UNION {[1..k -> DOMAIN SelPool] : k \in 0..n}
@@ -136,7 +140,7 @@ TDFields(prefix) ==
       [p |-> prefix \o <<"dir">>, vs |-> OptVals(1)],
       [p |-> prefix \o <<"st">>, vs |-> {None, Some([h |-> 0, m |-> 0, s |-> 0, ok |-> TRUE]), Some([h |-> 23, m |-> 59, s |-> 59, ok |-> TRUE]),
                                          Some([h |-> 47, m |-> 30, s |-> 15, ok |-> TRUE]), Some([h |-> 7, m |-> 5, s |-> 3, ok |-> FALSE])}],
-      [p |-> prefix \o <<"sd">>, vs |-> {None} \cup {Some([day |-> d, ok |-> TRUE]) : d \in 1..6} \cup {Some([day |-> 3, ok |-> FALSE])}],
+      [p |-> prefix \o <<"sd">>, vs |-> {None} \cup {Some([day |-> d, ok |-> TRUE]) : d \in 1..7} \cup {Some([day |-> 3, ok |-> FALSE])}],
       [p |-> prefix \o <<"sr">>, vs |-> OptVals(3)] }
 EvFields(prefix) ==
     { [p |-> prefix, vs |-> {None, Some(NoEv)}],
